@@ -15,6 +15,7 @@ type Finding struct {
 	Properties []string `json:"properties"`
 	Obligation string `json:"obligation"`
 	Except     string `json:"except"`
+	At         string `json:"at,omitempty"` // "site": the except predicate is stated over the call-site state in the callee's parameter names
 	What       string `json:"what"`
 	Status     string `json:"status"`
 }
@@ -27,6 +28,8 @@ func main() {
 	switch os.Args[1] {
 	case "func":
 		cmdFunc(os.Args[2:])
+	case "lemma":
+		cmdLemma(os.Args[2:])
 	case "ssa":
 		cmdSSA(os.Args[2:])
 	case "check":
@@ -146,3 +149,35 @@ func cmdFunc(args []string) {
 	}
 }
 
+
+func cmdLemma(args []string) {
+	P, err := loadProgram("/repo")
+	if err != nil {
+		panic(err)
+	}
+	if err := P.loadContracts(); err != nil {
+		fmt.Println("contract error:", err)
+		os.Exit(2)
+	}
+	opts := &VerifyOpts{WorkDir: "/verif/.work/lemma", TimeoutS: 10, Agree: 1}
+	for i, ld := range P.Lemmas {
+		match := len(args) == 0
+		for _, a := range args {
+			if strings.Contains(ld.Name, a) {
+				match = true
+			}
+		}
+		if !match {
+			continue
+		}
+		r := P.verifyLemma(i, opts)
+		fmt.Printf("== lemma %s.%s (%d ms)\n", ld.Pkg, ld.Name, r.Millis)
+		if r.Err != nil {
+			fmt.Println("   ERROR:", r.Err)
+			continue
+		}
+		for _, or := range r.Results {
+			fmt.Printf("   %-13s %s [%s %dms]\n", or.Status, or.Obl.Name, or.Solve.Backend, or.Solve.Millis)
+		}
+	}
+}
